@@ -112,6 +112,40 @@ def report(ck, case, g, o, gvh, oracle, what="generated program", budget=120):
     ck.violation("golua and LuaCore disagree on a %s: go=%s | luacore=%s" % (what, g[:120], o[:120]), rep)
 
 
+def reference_compare(ck, mkgen, nprog, gvh, oracle):
+    """LuaCore vs PUC-Rio Lua 5.3.6 on generated programs of the 5.3/5.4 common subset
+    (no <close>/<const>, no string arithmetic, no 5.4-only library functions or errors).
+    A difference is a defect of LuaCore or of the generator discipline, never of golua."""
+    ref = luacore.build_ref(ck)
+    stats = {"compared": 0, "agree": 0, "disagree": 0, "available": ref is not None}
+    ck.cov["reference_lua53"] = stats
+    if ref is None:
+        return
+    cases = []
+    for i in range(nprog):
+        g = mkgen(ck.rng.fork())
+        body, tuples, _ = g.program()
+        cases.append({"ast": body, "style": i % len(gen_lua.STYLES), "args": tuples[0], "rseed": ck.rng.next() & 0xFFFFFFF})
+    res = luacore.run_both(ck, cases, gvh, oracle)
+    rr = luacore.run_ref(ref, cases)
+    bad = 0
+    for c, (g, o), r in zip(cases, res, rr):
+        if o.split(" ")[0].startswith(("unsupported", "fuel", "HANG", "SKIPPED")):
+            continue
+        stats["compared"] += 1
+        ck.count("reference-lua53-compared")
+        if r == o:
+            stats["agree"] += 1
+            continue
+        stats["disagree"] += 1
+        bad += 1
+        if bad <= 2:
+            ck.violation("LuaCore (the specification side) disagrees with PUC-Rio Lua 5.3 on a program of the common subset: ref=%s | luacore=%s" % (r[:120], o[:120]),
+                         {"kind": "S!=reference", "src": c["_src"], "sx": c["_sx"], "args": c["args"], "reference_lua53": r, "luacore": o, "go": g},
+                         no_input=True)
+    ck.log("reference PUC-Lua 5.3: %s" % stats)
+
+
 def load_corpus(pid):
     d = os.path.join(vlib.VERIF, "corpus", pid)
     out = []
@@ -168,7 +202,7 @@ def run(tier, seed):
             ck.notes.append("known finding %s: the witness no longer fails (repaired?)" % fid)
 
     # ---------------- generated programs
-    nprog = int(vlib.os.environ.get("VERIF_NPROG", 0)) or (900 if tier == "quick" else 10000)
+    nprog = int(vlib.os.environ.get("VERIF_NPROG", 0)) or (700 if tier == "quick" else 7000)
     rounds = 1 if tier == "quick" else 3
     total = {"same": 0, "diff": 0, "known": 0, "discarded": 0}
     feats_all, kinds_all = {}, {}
@@ -216,6 +250,7 @@ def run(tier, seed):
                 if i < len(cases):
                     ck.sample({"lua": cases[i]["_src"][:1500], "args": cases[i]["args"], "go": res[i][0][:400], "luacore": res[i][1][:400]})
         ck.log("round %d: %s" % (rd, total))
+    reference_compare(ck, lambda rng: gen_lua.ProgramGen(rng, dict(luacore.REF53_PROFILE)), 250 if tier == "quick" else 4000, gvh, oracle)
     for k, v in sorted(feats_all.items()):
         ck.count("feature:" + k, v)
     for k, v in sorted(kinds_all.items()):
